@@ -1928,8 +1928,6 @@ Error BaseRAPass::set_shared_assignment(uint32_t shared_assignment_id, const RAA
       BitOps::or_(shared_live_in, shared_live_in, live_in);
 
       for (RegGroup group : Support::enumerate(RegGroup::kMaxVirt)) {
-        shared_assigned[group] |= entry_phys_to_work_map->assigned[group];
-
         uint32_t phys_base_index = _phys_reg_index.get(group);
         Support::BitWordIterator<RegMask> it(entry_phys_to_work_map->assigned[group]);
 
@@ -1944,6 +1942,8 @@ Error BaseRAPass::set_shared_assignment(uint32_t shared_assignment_id, const RAA
             entry_phys_to_work_map->unassign(group, phys_id, phys_base_index + phys_id);
           }
         }
+
+        shared_assigned[group] |= entry_phys_to_work_map->assigned[group];
       }
     }
   }
